@@ -214,7 +214,7 @@ func (c *Checkpointer) AddExpectedSeqIDAndRevs(seqs map[IDAndRev]SequenceID) {
 	}
 	c.stats.ExpectedSequenceCount += int64(len(seqs))
 	if base.VerifOn {
-		base.VerifEmit(verifObj(c), "ExpectIDRev", "n_added", len(seqs), "E", verifSeqs(c.expectedSeqs), "P", verifSeqSet(c.processedSeqs))
+		base.VerifEmit(verifObj(c), "Expect", "toks", verifSeqs(c.expectedSeqs[len(c.expectedSeqs)-len(seqs):]), "E", verifSeqs(c.expectedSeqs), "P", verifSeqSet(c.processedSeqs))
 	}
 	c.lock.Unlock()
 }
